@@ -25,14 +25,14 @@ theorem terminating_events (e : EP) (ig : Bool) (err : DecErr) :
     (processIn e (.msg .ping) ig).2.2 = none ∧ (processIn e (.msg .pong) ig).2.2 = none :=
   ⟨rfl, rfl, rfl, rfl, rfl, rfl⟩
 
-/-- After an error (transport failure, invalid frame, …) the wind-down completes at once, whatever
-    the peer does afterwards: the task is finished with that error, the flow table is empty and no
-    open request is left pending — nothing waits for a silent peer. -/
-theorem error_resolves_everything (e : EP) (drain : Bool) (res : ExitRes) (hres : res ≠ .ok) :
-    let r := windDown e drain res
+/-- After an error (transport failure, invalid frame, …; those paths never drain) the wind-down
+    completes at once, whatever the peer does afterwards: the task is finished with that error, the
+    flow table is empty and no open request is left pending — nothing waits for a silent peer. -/
+theorem error_resolves_everything (e : EP) (res : ExitRes) (hres : res ≠ .ok) :
+    let r := windDown e false res
     r.1.dead = true ∧ r.1.flows = [] ∧ (∀ q ∈ r.1.opens, q.req ∈ r.1.retryq) ∧ r.1.park = none ∧
     r.2.getLast? = some (.exit res) :=
-  Mux.windDown_error_resolves e drain res hres
+  Mux.windDown_error_resolves e res hres
 
 /-- The open requests still listed after the wind-down are exactly those that had already been told
     "rejected" by the peer; their futures run one more round right away (`runRetries` in `settle`),
@@ -44,11 +44,11 @@ theorem rejected_opens_resolve_after_end (e : EP) (r : OpenReq) (hoc : e.outClos
   Mux.openRound_closed_resolves e r hoc
 
 /-- The same once the source has ended (peer closed the connection or the transport is gone). -/
-theorem source_end_resolves_everything (e : EP) (drain : Bool) (res : ExitRes) (hs : e.srcEnded = true) :
-    let r := windDown e drain res
+theorem source_end_resolves_everything (e : EP) (res : ExitRes) (hs : e.srcEnded = true) :
+    let r := windDown e false res
     r.1.dead = true ∧ r.1.flows = [] ∧ (∀ q ∈ r.1.opens, q.req ∈ r.1.retryq) ∧ r.1.park = none ∧
     r.2.getLast? = some (.exit res) :=
-  Mux.windDown_srcEnded_resolves e drain res hs
+  Mux.windDown_srcEnded_resolves e res hs
 
 /-- Every established stream that was in the flow table when the final drain ran is closed in both
     directions (its object has `finishSent` and has lost its channel sender) … -/
@@ -116,18 +116,53 @@ theorem pending_requests_resolve (e : EP) (fid req : Nat) (r : OpenReq) (inh : B
 
 /-- A local drop still flushes: when the Multiplexor is dropped, every message queued before the
     drop (data already written, Finish, Reset, datagrams) is handed to the transport, in order,
-    before the WebSocket is closed. -/
-theorem flush_on_drop (e : EP) (res : ExitRes) :
+    before the WebSocket is closed … -/
+theorem flush_on_drop (e : EP) (res : ExitRes) (hs : e.sinkRoom = none) :
     ∃ rest, (windDown e true res).2 = e.outq.map Ev.wire ++ Ev.wireClose :: rest :=
-  Mux.windDown_drain_flushes e res
+  Mux.windDown_drain_flushes e res hs
+
+/-- … also under back-pressure: what the sink accepts goes out at once, in order; the remainder
+    stays queued, in order (nothing is lost or reordered), and the wind-down waits in its drain
+    loop; when nothing remains the sink is closed right after the last message. -/
+theorem flush_on_drop_backpressure (e : EP) (res : ExitRes) :
+    ∃ sent, sent ++ (sendSome (dropPrep e)).1.outq = e.outq ∧ (sendSome (dropPrep e)).2 = sent.map Ev.wire ∧
+      (((sendSome (dropPrep e)).1.outq ≠ [] →
+          (windDown e true res).2 = sent.map Ev.wire ∧ (windDown e true res).1.outq = (sendSome (dropPrep e)).1.outq ∧
+          (windDown e true res).1.draining = some res) ∧
+       ((sendSome (dropPrep e)).1.outq = [] →
+          ∃ rest, (windDown e true res).2 = e.outq.map Ev.wire ++ Ev.wireClose :: rest)) :=
+  Mux.windDown_drain_partial e res
+
+/-- … until the sink accepts messages again: each time the task runs, the drain loop hands over the
+    next messages of the queue, in order; while some remain it stays parked with exactly those, and
+    once the queue is empty the sink is closed. -/
+theorem drain_resumes (e : EP) (res : ExitRes) (fuel : Nat) (acc : List Ev)
+    (hd : e.dead = false) (hdr : e.draining = some res) :
+    ∃ sent, sent ++ (sendSome e).1.outq = e.outq ∧ (sendSome e).2 = sent.map Ev.wire ∧
+      (((sendSome e).1.outq ≠ [] → settleLoop (fuel + 1) e acc = ((sendSome e).1, acc ++ sent.map Ev.wire)) ∧
+       ((sendSome e).1.outq = [] →
+          ∃ rest, (settleLoop (fuel + 1) e acc).2 = acc ++ (e.outq.map Ev.wire ++ Ev.wireClose :: rest))) := by
+  obtain ⟨sent, hs1, hs2⟩ := Mux.sendSome_split e
+  refine ⟨sent, hs2, hs1, ?_, ?_⟩
+  · intro hne
+    have hq : (sendSome e).1.outq.isEmpty = false := by
+      cases h : (sendSome e).1.outq <;> simp_all
+    simp only [settleLoop, hd, hdr, Bool.false_eq_true, if_false, hq]
+    rw [hs1]
+  · intro hempty
+    have hq : (sendSome e).1.outq.isEmpty = true := by simp [hempty]
+    simp only [settleLoop, hd, hdr, Bool.false_eq_true, if_false, hq, if_true]
+    rw [hempty, List.append_nil] at hs2
+    rw [← hs2, ← hs1]
+    exact Exists.imp (fun rest hr => by rw [hr]) (Mux.windDownTail_flushes _ _ _ _)
 
 /-- Dropping the Multiplexor makes the task wind down with drain (and without error). -/
 theorem drop_triggers_drain (e : EP) (fuel : Nat) (acc : List Ev) (rest : List Nat)
-    (hd : e.dead = false) (hc : e.closing = none) (hp : e.park = none) (hi : e.inbox = [])
+    (hd : e.dead = false) (hdr : e.draining = none) (hc : e.closing = none) (hp : e.park = none) (hi : e.inbox = [])
     (hq : e.droppedq = 0 :: rest) :
     settleLoop (fuel + 1) e acc = ((windDown { e with droppedq := rest } true .ok).1,
                                     acc ++ (windDown { e with droppedq := rest } true .ok).2) := by
-  simp [settleLoop, hd, hc, unpark, hp, hi, hq]
+  simp [settleLoop, hd, hdr, hc, unpark, hp, hi, hq]
 
 /-! Non-vacuity -/
 example : (windDown { opts := {}, outq := [.ping], flows := [(3, .requested 1)],
